@@ -1654,6 +1654,7 @@ class Router(NetworkNode, discriminator="router"):
         :return: Configured router.
         :rtype: Router
         """
+        config = dict(config)  # the caller's mapping is only read: a second build from the same parsed scenario sees it whole
         ports = config.pop("ports", None)
         acl = config.pop("acl", None)
         routes = config.pop("routes", None)
